@@ -39,7 +39,7 @@ TOP = frozenset({"int", "float", "bool", "str", "none", "other", ("seq", frozens
 STR_METHODS = {"strip": STR, "lstrip": STR, "rstrip": STR, "lower": STR, "upper": STR, "replace": STR, "title": STR,
                "startswith": BOOL, "endswith": BOOL, "find": frozenset({"int"}), "rfind": frozenset({"int"}), "index": frozenset({"int"}),
                "split": seq(STR), "rsplit": seq(STR), "splitlines": seq(STR), "join": STR, "format": STR, "isdigit": BOOL,
-               "count": frozenset({"int"}), "partition": seq(STR), "removeprefix": STR, "removesuffix": STR, "isalpha": BOOL,
+               "count": frozenset({"int"}), "partition": seq(STR), "rpartition": seq(STR), "removeprefix": STR, "removesuffix": STR, "isalpha": BOOL,
                "encode": OTHER, "zfill": STR, "casefold": STR, "capitalize": STR, "isnumeric": BOOL, "isspace": BOOL}
 SEQ_METHODS = {"append", "extend", "copy", "index", "count", "insert", "pop", "sort", "reverse", "clear", "remove"}
 
@@ -149,6 +149,8 @@ class Interp:
         self.contexts = 0
         self.ops_checked = 0
         self.attr_types: Dict[str, FrozenSet] = {}   # attribute name -> abstract type (for objects of repo classes)
+        self.ret_noinf: Dict[str, bool] = {}         # function -> no returned float is +-inf, provided the arguments carry none
+        self.ret_noinf_strict: Dict[str, bool] = {}  # function -> no returned float is +-inf, whatever the arguments
 
     # ------------------------------------------------------------------ function level
     def call_function(self, fi: FuncInfo, args: Dict[str, FrozenSet], chain: tuple) -> Tuple[FrozenSet, List[Raised]]:
@@ -168,6 +170,8 @@ class Interp:
             else:
                 d = fi.defaults().get(p)
                 env.types[p] = self.const_type(d) if d is not None else TOP
+        for p in fi.params():
+            env.member.add(("noinfA__", p))         # summaries are relative to "the arguments carry no inf"
         fr = Frame(self, fi, chain + (fi.short,))
         fr.block(fi.node.body, env)
         ret = frozenset().union(*fr.returns) if fr.returns else NONE
@@ -250,9 +254,14 @@ class Frame:
             return env
         if isinstance(st, ast.Assign):
             av = self.ev(st.value, env)
+            ni = self.noinf(st.value, env)
+            nia = ni or self.noinf(st.value, env, 0, False)
             # remember proven lengths of displays
             for t in st.targets:
                 self.assign(t, av, env, st)
+                if nia:
+                    for nm in ([t] if isinstance(t, ast.Name) else [x for x in getattr(t, "elts", []) if isinstance(x, ast.Name)]):
+                        env.member.add(("noinf__" if ni else "noinfA__", nm.id))
                 if isinstance(t, ast.Name):
                     if isinstance(st.value, (ast.Tuple, ast.List)) and not any(isinstance(e, ast.Starred) for e in st.value.elts):
                         env.minlen[t.id] = len(st.value.elts)
@@ -270,10 +279,18 @@ class Frame:
             rhs = self.ev(st.value, env)
             res = self.binop(st.op, cur, rhs, st)
             if isinstance(st.target, ast.Name):
+                tn = ast.Name(id=st.target.id, ctx=ast.Load())
+                ni = self.noinf(tn, env) and self.noinf(st.value, env)
+                nia = ni or (self.noinf(tn, env, 0, False) and self.noinf(st.value, env, 0, False))
                 self.assign(st.target, res, env, st)
+                if nia:
+                    env.member.add(("noinf__" if ni else "noinfA__", st.target.id))
             return env
         if isinstance(st, ast.Return):
             self.returns.append(self.ev(st.value, env) if st.value is not None else NONE)
+            if st.value is not None:
+                self.I.ret_noinf[self.fi.qualname] = self.I.ret_noinf.get(self.fi.qualname, True) and self.noinf(st.value, env, 0, False)
+                self.I.ret_noinf_strict[self.fi.qualname] = self.I.ret_noinf_strict.get(self.fi.qualname, True) and self.noinf(st.value, env, 0, True)
             return None
         if isinstance(st, ast.Raise):
             self.do_raise(st, env)
@@ -494,6 +511,31 @@ class Frame:
                 if cur is None:
                     break
             return Env.join(alts)
+        if isinstance(test, ast.Call) and len(test.args) == 1 and isinstance(test.args[0], (ast.Tuple, ast.List)) and not test.keywords \
+                and ((truth and self.scope.resolve_call(test) == "builtins.all") or (not truth and self.scope.resolve_call(test) == "builtins.any")):
+            # all((c1, c2, c3)) holds / any((c1, c2, c3)) fails: every element has that truth value
+            for c in test.args[0].elts:
+                env = self.narrow(c, env, truth)
+                if env is None:
+                    return None
+            return env
+        if truth and isinstance(test, ast.Call) and self.scope.resolve_call(test) == "builtins.all" and len(test.args) == 1 and isinstance(test.args[0], (ast.GeneratorExp, ast.ListComp)) \
+                and len(test.args[0].generators) == 1 and isinstance(test.args[0].generators[0].target, ast.Name) and not test.args[0].generators[0].ifs:
+            # all(isinstance(v, int) and 0 <= v <= 255 for v in X) holds: every element of X is bounded
+            g = test.args[0].generators[0]
+            v = g.target.id
+            conj = test.args[0].elt.values if isinstance(test.args[0].elt, ast.BoolOp) and isinstance(test.args[0].elt.op, ast.And) else [test.args[0].elt]
+            bounded = any(isinstance(c, ast.Compare) and len(c.ops) == 2 and isinstance(c.comparators[0], ast.Name) and c.comparators[0].id == v
+                          and all(isinstance(k, ast.Constant) and isinstance(k.value, (int, float)) for k in (c.left, c.comparators[1])) for c in conj)
+            only_int = any(isinstance(c, ast.Call) and self.scope.resolve_call(c) == "builtins.isinstance" and len(c.args) == 2 and isinstance(c.args[0], ast.Name) and c.args[0].id == v
+                           and isinstance(c.args[1], ast.Name) and c.args[1].id in ("int", "bool") for c in conj)
+            if bounded or only_int:
+                if isinstance(g.iter, (ast.Tuple, ast.List)):
+                    for x in g.iter.elts:
+                        env.member.add(("noinf__", norm_text(x)))
+                else:
+                    env.member.add(("noinf__", norm_text(g.iter)))
+            return env
         if isinstance(test, ast.Call):
             q = self.scope.resolve(test.func)
             if q == "builtins.isinstance" and len(test.args) == 2 and isinstance(test.args[0], ast.Name):
@@ -507,6 +549,31 @@ class Frame:
                         return None
                     env.types[name] = new
                 return env
+            return env
+        if isinstance(test, ast.Compare) and len(test.ops) == 2 and truth and all(isinstance(o, (ast.Lt, ast.LtE, ast.Gt, ast.GtE)) for o in test.ops) \
+                and all(isinstance(c, ast.Constant) and isinstance(c.value, (int, float)) and not isinstance(c.value, bool) for c in (test.left, test.comparators[1])):
+            # c1 <= x <= c2 holds: x is bounded on both sides (and not NaN)
+            subj = test.comparators[0]
+            env.member.add(("noinf__", norm_text(subj)))
+            if isinstance(subj, ast.Call) and self.scope.resolve_call(subj) == "builtins.float" and subj.args:
+                env.member.add(("noinf__", norm_text(subj.args[0])))
+            return env
+        if isinstance(test, ast.Compare) and len(test.ops) == 1 and isinstance(test.ops[0], (ast.Lt, ast.LtE, ast.Gt, ast.GtE, ast.Eq)) \
+                and isinstance(test.comparators[0], ast.Constant) and isinstance(test.comparators[0].value, (int, float)) and not isinstance(test.comparators[0].value, bool) \
+                and not isinstance(test.left, ast.Constant) and self.len_subject(test.left, env) is None:
+            # one-sided bounds accumulate: x >= c1 and x <= c2 together bound x
+            o = type(test.ops[0])
+            if not truth:
+                o = {ast.Lt: ast.GtE, ast.GtE: ast.Lt, ast.Gt: ast.LtE, ast.LtE: ast.Gt, ast.Eq: None}.get(o)
+            txt = norm_text(test.left)
+            if o is ast.Eq:
+                env.member.add(("noinf__", txt))
+            elif o in (ast.Lt, ast.LtE):
+                env.member.add(("ub__", txt))
+            elif o in (ast.Gt, ast.GtE):
+                env.member.add(("lb__", txt))
+            if ("ub__", txt) in env.member and ("lb__", txt) in env.member:
+                env.member.add(("noinf__", txt))
             return env
         if isinstance(test, ast.Compare) and len(test.ops) == 1:
             op = test.ops[0]
@@ -805,7 +872,10 @@ class Frame:
             if isinstance(e.slice, ast.Constant) and isinstance(e.slice.value, int):
                 k = e.slice.value
                 need = k + 1 if k >= 0 else -k
-            if need is None or env.minlen.get(subject, 0) < need:
+            have = env.minlen.get(subject, 0)
+            if isinstance(e.value, ast.Call) and isinstance(e.value.func, ast.Attribute) and e.value.func.attr in ("partition", "rpartition") and any(a == "str" for a in self.ev(e.value.func.value, env)):
+                have = max(have, 3)         # str.partition / rpartition always return a 3-tuple
+            if need is None or have < need:
                 self.throw("IndexError", e, "implicit", f"{subject}[{norm_text(e.slice)}] without a dominating length test (proven minimum length {env.minlen.get(subject, 0)})")
         return elems_of(base) or TOP
 
@@ -817,6 +887,77 @@ class Frame:
         m = self.I.project.modules.get(mod)
         v = m.top_assigns.get(nm) if m else None
         return isinstance(v, ast.Dict) and all(isinstance(x, ast.Constant) and isinstance(x.value, str) for x in v.values)
+
+    # ------------------------------------------------------------------ floats that cannot be infinite
+    def noinf(self, e: ast.AST, env: Env, depth: int = 0, strict: bool = True) -> bool:
+        """The value of e is not +-inf (an int, a finite float or NaN): int()/round() of it cannot raise OverflowError.
+        Assumption: arithmetic on bounded operands does not overflow to inf."""
+        if depth > 12:
+            return False
+        if isinstance(e, ast.Constant):
+            return not (isinstance(e.value, float) and e.value in (float("inf"), float("-inf")))
+        if ("noinf__", norm_text(e)) in env.member or (not strict and ("noinfA__", norm_text(e)) in env.member):
+            return True
+        if isinstance(e, ast.Name):
+            t = env.types.get(e.id)
+            return t is not None and "float" not in t and not any(is_seq(a) for a in t) and "other" not in t and "str" not in t
+        if isinstance(e, (ast.Tuple, ast.List)):
+            return all(self.noinf(x, env, depth + 1, strict) for x in e.elts)
+        if isinstance(e, ast.UnaryOp):
+            return self.noinf(e.operand, env, depth + 1, strict)
+        if isinstance(e, ast.IfExp):
+            return self.noinf(e.body, env, depth + 1, strict) and self.noinf(e.orelse, env, depth + 1, strict)
+        if isinstance(e, ast.BinOp):
+            if isinstance(e.op, ast.Mod):
+                return self.noinf(e.right, env, depth + 1, strict)      # inf % c is NaN, x % c is bounded by c
+            return self.noinf(e.left, env, depth + 1, strict) and self.noinf(e.right, env, depth + 1, strict)
+        if isinstance(e, ast.Subscript):
+            bt = self.types_quiet(e.value, env)
+            if bt and all((is_seq(a) and "float" not in a[1] and "other" not in a[1] and "str" not in a[1]) for a in bt):
+                return True
+            return ("noinf__", norm_text(e.value)) in env.member or (not strict and ("noinfA__", norm_text(e.value)) in env.member)      # every element of a sequence known free of inf
+        if isinstance(e, ast.Call):
+            q = self.scope.resolve_call(e)
+            if q in ("builtins.int", "builtins.round", "builtins.len", "builtins.bool", "builtins.ord"):
+                return True
+            if q in ("builtins.abs",) and e.args:
+                return self.noinf(e.args[0], env, depth + 1, strict)
+            if q == "builtins.float" and e.args:
+                at = self.types_quiet(e.args[0], env)
+                return self.noinf(e.args[0], env, depth + 1, strict) and at is not None and "str" not in at      # float("inf") / float("1e999") are inf
+            if q in ("builtins.max", "builtins.min") and len(e.args) >= 2:
+                if all(self.noinf(a, env, depth + 1, strict) for a in e.args):
+                    return True
+                # clamp: max(a, min(b, x)) / min(b, max(a, x)) is bounded on both sides when both bounds carry no inf
+                inner = [a for a in e.args if isinstance(a, ast.Call) and self.scope.resolve_call(a) in ("builtins.max", "builtins.min") and self.scope.resolve_call(a) != q]
+                outer_bounds = [a for a in e.args if a not in inner]
+                if len(inner) == 1 and len(e.args) == 2 and outer_bounds and self.noinf(outer_bounds[0], env, depth + 1, strict) \
+                        and len(inner[0].args) == 2 and any(self.noinf(a, env, depth + 1, strict) for a in inner[0].args):
+                    return True
+                return False
+            if q and q.startswith("math."):
+                return all(self.noinf(a, env, depth + 1, strict) for a in e.args)
+            if isinstance(e.func, ast.Name) and e.func.id in self.local_funcs:
+                q = f"{self.fi.qualname}.<locals>.{e.func.id}"
+            if q in self.I.project.funcs:
+                # the callee returns no inf: unconditionally, or provided its arguments carry none
+                if self.I.ret_noinf_strict.get(q, False):
+                    return True
+                return self.I.ret_noinf.get(q, False) and all(self.noinf(a, env, depth + 1, strict) for a in e.args) and all(self.noinf(k.value, env, depth + 1, strict) for k in e.keywords)
+            return False
+        if isinstance(e, ast.Attribute):
+            return False
+        return False
+
+    def types_quiet(self, e: ast.AST, env: Env):
+        """Abstract type of a sub-expression without recording exceptions twice (the expression is evaluated elsewhere)."""
+        self.sinks.append([])
+        try:
+            return self.ev(e, env)
+        except AnalysisError:
+            return None
+        finally:
+            self.sinks.pop()
 
     # ------------------------------------------------------------------ calls
     def call(self, e: ast.Call, env: Env) -> FrozenSet:
@@ -845,6 +986,8 @@ class Frame:
                 self.throw("TypeError", e, "implicit", f"{q.split('.')[1]}() of {sorted(map(str, bad))}")
             if "str" in a0 or "float" in a0:
                 self.throw("ValueError", e, "implicit", f"{q.split('.')[1]}() of a non-numeric string / nan")
+            if q == "builtins.int" and "float" in a0 and e.args and not self.noinf(e.args[0], env):
+                self.throw("OverflowError", e, "implicit", f"int() of a float that may be infinite ({norm_text(e.args[0])[:50]}): cannot convert float infinity to integer")
             return frozenset({q.split(".")[1]})
         if q == "builtins.str" or q == "builtins.repr":
             return STR
@@ -861,6 +1004,10 @@ class Frame:
             bad = a0 - NUM - OTHER
             if bad:
                 self.throw("TypeError", e, "implicit", f"{q.split('.')[1]}() of {sorted(map(str, bad))}")
+            if q == "builtins.round" and len(e.args) == 1 and not e.keywords and "float" in a0:
+                if not self.noinf(e.args[0], env):
+                    self.throw("OverflowError", e, "implicit", f"round() of a float that may be infinite ({norm_text(e.args[0])[:50]}): cannot convert float infinity to integer")
+                self.throw("ValueError", e, "implicit", "round() of nan")
             return frozenset({"int", "float"}) if q == "builtins.round" and len(args) > 1 else (frozenset({"int"}) if q == "builtins.round" else a0 & NUM or NUM)
         if q in ("builtins.max", "builtins.min"):
             vals = frozenset().union(*args) if len(args) > 1 else elems_of(a0)
